@@ -217,6 +217,30 @@ Theorem scenario_ippo_learn_formula : forall sp squash masked B,
 Proof. exact scenario_ippo_learn_formula_lemma. Qed.
 Print Assumptions scenario_ippo_learn_formula.
 
+(* DEEPENING: the stored-action theorem WITHOUT the cache-miss guard.  Whatever well-shaped tensor is passed after whatever
+   forward pass - a stored action, the fresh one, or a stored tensor that happens to be bit-identical to tanh of the last
+   draw - log_prob is the definition at that tensor modulo atanh(clamp(tanh x)) -> x (uses soundness of the syntactic
+   torch.equal test: expr_eqb x y = true -> x = y) ... *)
+Theorem logprob_is_spec_any : forall ed lg mask dr ed' a lp ent act B,
+  ed_ok ed -> space_ok (ed_space ed) -> wf_rows B (flatdim (ed_space ed)) lg -> mask_ok (ed_space ed) B mask ->
+  wf_action (ed_space ed) B act ->
+  ed_forward ed lg mask dr = Some (ed', a, lp, ent) ->
+  tmap simp (ed_log_prob ed' act)
+  = tmap simp (spec_logprob (ed_space ed) (ed_squash ed) (eff_logits lg mask) (ed_log_std ed) act).
+Proof. exact logprob_is_spec_any_lemma. Qed.
+Print Assumptions logprob_is_spec_any.
+
+(* ... hence its VALUE is the value of the definition, unconditionally, in every interpretation with atanh(clamp(tanh x)) = x *)
+Theorem stored_logprob_value : forall (T : Type) (P : prims T) (rho : string -> nat -> nat -> T) ed lg mask dr ed' a lp ent act B,
+  (forall x, p_atanh T P (p_clamp T P (p_tanh T P x)) = x) ->
+  ed_ok ed -> space_ok (ed_space ed) -> wf_rows B (flatdim (ed_space ed)) lg -> mask_ok (ed_space ed) B mask ->
+  wf_action (ed_space ed) B act ->
+  ed_forward ed lg mask dr = Some (ed', a, lp, ent) ->
+  tdenote T P rho (ed_log_prob ed' act)
+  = tdenote T P rho (spec_logprob (ed_space ed) (ed_squash ed) (eff_logits lg mask) (ed_log_std ed) act).
+Proof. exact stored_logprob_value_lemma. Qed.
+Print Assumptions stored_logprob_value.
+
 (* ---- non-vacuity: concrete states satisfy the hypotheses ---- *)
 Open Scope string_scope.
 (* a stored action (plain variables) misses the cache after two forwards of a squashed Box policy, and the theorem applies *)
